@@ -210,7 +210,15 @@ def observe(d):
             look[n] = NONE
         lists[n] = list(d.getlist(n))
         has[n] = n in d
-    return {"lines": [[k, v] for k, v in d.iteritems()], "merged": [[k, v] for k, v in d.itermerged()],
+    lines = list(d.iteritems())
+    # equality with accepted source types built from the object's own content (the statement lists equality among the
+    # observations): per-line pairs, the merged view as a dict, the pairs with every name's casing flipped -> equal;
+    # the pairs plus one extra line -> not equal
+    eqsrc = {"lines": bool(d == lines) and not bool(d != lines),
+             "merged": bool(d == dict(d.itermerged())),
+             "caseflip": bool(d == [(k.swapcase(), v) for k, v in lines]),
+             "extra": bool(d == lines + [("zz-extra", "1")])}
+    return {"eqsrc": eqsrc, "lines": [[k, v] for k, v in d.iteritems()], "merged": [[k, v] for k, v in d.itermerged()],
             "keys": list(d.keys()) if True else [], "len": len(d), "look": look, "lists": lists, "has": has}
 
 
